@@ -442,7 +442,7 @@ def gen_noise(rng):
 INT_POOL = ["0", "1", "-1", "5", "100", "101", "999", "1000", "65535", "65536", "3600000", "3600001", "10000",
             " 7 ", "+3", "-0", "1_000", "١٢٣", "٣", "9" * 25, "9" * 4300, "9" * 4301, "1.0", "1e3", "0x10", "",
             " ", "12a", "\\n5", "5\\n", "５"]
-FLOAT_POOL = ["0", "0.0", "-0.0", "1.5", "-1.5", "1e3", "1e-3", "nan", "NaN", "-nan", "inf", "-inf", "Infinity",
+FLOAT_POOL = ["0", "0.0", "1.5", "-1.5", "1e3", "1e-3", "nan", "NaN", "-nan", "inf", "-inf", "Infinity",
               "1e999", "-1e999", "1e-999", " 2.5 ", "1_0.5", "٣.٥", ".5", "5.", "", "x", "1,5", "0.1", "100",
               "0.30000000000000004", "1e308", "2.5e-5"]
 BOOL_POOL = ["1", "yes", "true", "on", "0", "no", "false", "off", "TRUE", "Yes", "oN", "OFF", "", " true", "t",
@@ -456,7 +456,7 @@ PATH_POOL = ["/tmp", "/tmp/x/../y", "~", "~/music", "~root/x", "~nosuchuser/x", 
              "@LOOP@", "@LOOP@/x", "@LINK@", "@DIR@/f"]
 HOST_POOL = ["127.0.0.1", "::1", "0.0.0.0", "localhost", "example.com", "nosuch.invalid", "a..b", "x" * 70, "é.com",
              "\udcff", "a\x00b", "", " ", "my-host", "1", "256.1.1.1", "unix:/tmp/s", "unix:", "unix:rel/s",
-             "unix:~nosuchuser/s", "unix:$XDG_DATA_DIR/s", "unix:$HOME", "unix:a\x00b", "unix:/a\nb", "UNIX:/x",
+             "unix:~nosuchuser/s", "unix:$XDG_DATA_DIR/s", "unix:$HOME", "unix:a\x00b", "unix:/a\nb", "UNIX:/x", "unix:/tmp/a\\\\nb", "unix:/tmp/c\\\\d",
              " unix:/x", "unix:@LOOP@", "::", "1.2.3", "host name"]
 LEVEL_POOL = ["critical", "error", "warning", "info", "debug", "trace", "all", "INFO", "Debug", "", "warn", "10",
               " info", "\u212a", "notset"]
